@@ -56,6 +56,7 @@ pub struct Dec {
     pub bytes_have_f2: bool,
     /// the bytes of this instruction
     pub raw: Vec<u8>,
+    pub mode64: bool,
     pub ops: Vec<Op>,
 }
 
@@ -97,12 +98,15 @@ pub fn parse_reg(name: &str) -> Reg {
     mk(RegClass::Other, 0, 0, false)
 }
 
-/// the legacy prefix bytes at the start of an encoding
-pub fn legacy_prefixes(bytes: &[u8]) -> Vec<u8> {
+/// the legacy prefix bytes at the start of an encoding (in 64-bit mode REX bytes that are followed
+/// by further prefixes are skipped: the CPU ignores such a REX)
+pub fn legacy_prefixes(bytes: &[u8], mode64: bool) -> Vec<u8> {
     let mut v = Vec::new();
     for b in bytes {
         if [0x66, 0x67, 0xF2, 0xF3, 0xF0, 0x26, 0x2E, 0x36, 0x3E, 0x64, 0x65].contains(b) {
             v.push(*b);
+        } else if mode64 && (0x40..=0x4F).contains(b) {
+            continue;
         } else {
             break;
         }
@@ -187,8 +191,9 @@ pub fn decode(mode64: bool, bytes: &[u8], addr: u64) -> Option<Dec> {
             disp_size: x.encoding.disp_size as usize,
             imm_off: x.encoding.imm_offset as usize,
             imm_size: x.encoding.imm_size as usize,
-            bytes_have_f2: legacy_prefixes(bytes).contains(&0xF2),
+            bytes_have_f2: legacy_prefixes(bytes, mode64).contains(&0xF2),
             raw: bytes[..(insn.size as usize).min(bytes.len())].to_vec(),
+            mode64,
             ops,
         })
     })
@@ -209,7 +214,7 @@ impl Dec {
                     RegClass::Gpr => format!("r{}", r.bits),
                     RegClass::Xmm => "xmm".into(),
                     RegClass::Seg => "sreg".into(),
-                    _ => format!("reg:{}", r.name),
+                    _ => r.name.trim_end_matches(|c: char| c.is_ascii_digit()).to_string(),
                 },
                 Op::Mem { bits, .. } => format!("m{}", bits),
                 Op::Imm { bits, .. } => format!("imm{}", bits),
@@ -256,10 +261,12 @@ impl Dec {
         self.ops.iter().any(|o| matches!(o, Op::Reg(r) if r.high))
     }
 
-    /// explicit FS/GS override on a memory operand
+    /// explicit FS/GS override (anywhere among the legacy prefixes: in 64-bit mode a later
+    /// ES/CS/SS/DS prefix is a null prefix and does not cancel it)
     pub fn fs_gs(&self) -> bool {
-        self.has_prefix(0x64)
-            || self.has_prefix(0x65)
+        let legacy = legacy_prefixes(&self.raw, self.mode64);
+        legacy.contains(&0x64)
+            || legacy.contains(&0x65)
             || self.ops.iter().any(|o| matches!(o, Op::Mem { seg: Some(s), .. } if s.name == "fs" || s.name == "gs"))
     }
 }
